@@ -12,6 +12,7 @@ import CharsetProof.Props.C04c
 import CharsetProof.Props.C04d
 import CharsetProof.Props.C04e
 import CharsetProof.Props.C10e
+import CharsetProof.Props.Full2
 open Charset
 #print axioms C04_chaos_range
 #print axioms C04_chaos_range_md
@@ -40,6 +41,8 @@ open Charset
 #print axioms Fl.ofNat32_lt_inf
 #print axioms C04_valid_utf8_nonempty
 #print axioms C04_valid_utf8_current
+#print axioms C04_valid_utf8_full
+#print axioms detection_full_verdicts
 #print axioms probe_utf8_valid
 #print axioms C04_threshold
 #print axioms C04_lt
